@@ -389,7 +389,7 @@ def SymmTensorBasis(rottype, eigenvect):
 
     # 2d first:
     if len(eigenvect) == 2:
-        if rottype == 1 or rottype == -2:
+        if rottype == 1 or rottype == -2 or rottype == 2:
             return [SymmTensor1(np.array([1.,0.])), SymmTensor1(np.array([0.,1.])),
                     SymmTensorCross(np.array([1.,0]), np.array([0.,1.]))]
         if rottype == -1:
